@@ -181,7 +181,7 @@ def chan_snap(name, cs) -> ChanSnap:
         dm = cs.detuning_map
         c.detmap = (
             tuple(tuple(_f(x) for x in row) for row in np.asarray(dm.sorted_coords)),
-            tuple(_f(w) for w in dm.weights),
+            tuple(_f(w) for w in dm.sorted_weights),  # same order as sorted_coords
         )
         c.waiting = bool(cs._waiting_for_first_pulse)
     return c
